@@ -238,6 +238,7 @@ def gen_for(prop):
             cs += fault_sweep(r, 4 * k, kind="pay", nk=2, probe=True)
         elif prop == "C11":
             cs += timeout_cases(r, 40 * k)
+            cs += restart_history_cases(r, 30 * k)
             cs += reject_stories(r, 16 * k)
             cs += crash_sweep(r, 3 * k, 2)
             cs += walks(r, 150 if T else 30, families=("slow", "default"))
@@ -272,6 +273,33 @@ def timeout_cases(r, n):
                                 {"e": "tick", "ms": max(1000, (mpp // 1000) * 1000 - 1000)}, {"e": "tick", "ms": 1000}, {"e": "finale"}]
             c["family"] += "/restart"
         out.append(c)
+    return out
+
+def restart_history_cases(r, n):
+    """Stored histories a restart can find: a Pending record dated long ago, just now, or AHEAD of the clock (clock stepped back),
+    with no parts / failed parts; an incomplete set is replayed and must be failed after at most one timeout."""
+    out = []
+    for i in range(n):
+        rr = r.fork()
+        mpp = rr.choice([5000, 60000, 60000, 120000])
+        cfg = mk_cfg(rr, mpp_ms=mpp)
+        b = CaseBuilder(rr, cfg, 1)
+        amount = 1000000
+        inv = b.add_invoice(0, amount)
+        need = fee_needed(cfg["policy"], amount)
+        start = rr.choice([0, 1000, 100000])
+        dated = rr.choice([0, start, start + 1000, start + 4000, start + mpp, start + 10 * mpp, max(0, start - mpp // 2 // 1000 * 1000), max(0, start - 1000)])
+        script = []
+        if start: script.append({"e": "tick", "ms": start})
+        script += [b.htlc(inv, need // 2, need), {"e": "drain"}]
+        # no response may come before the remaining time is over, and it must come when it is
+        remaining = mpp if dated >= start else max(0, mpp - (start - dated))
+        if remaining > 1000:
+            script += [{"e": "tick", "ms": remaining - 1000}, {"e": "tick", "ms": 1000}]
+        script += [{"e": "tick", "ms": 1000}]
+        out.append({"cfg": cfg, "invoices": b.invoices, "preimages": b.preimages, "_script": script, "suffix": [{"e": "finale"}],
+                    "init": [{"h": 0, "state": {"pending_t_ms": dated, "gen": rr.below(3)}, "parts": rr.choice([[], ["fail"], ["fail", "fail"]])}],
+                    "family": "restart_history/%s" % ("future" if dated > start else "past" if dated < start else "now")})
     return out
 
 def run_prop(prop, tier, seed, profiles=("dev",)):
